@@ -496,6 +496,14 @@ func (f *frame) step(ins ssa.Instruction, b *ssa.BasicBlock, in map[*ssa.BasicBl
 			}
 			return false, unsupported("store of a symbolic pointer/closure into memory")
 		}
+		if vv.Old && len(p.Path) == 0 {
+			// a pre-state pointer parked in a cell (parameter captured by a quantifier closure): keep the tag
+			if p.Kind == pLocal {
+				f.symCells()[p.Alloc] = vv
+			} else if p.Kind == pHeap {
+				f.symCells()["ref:"+p.Ref.String()] = vv
+			}
+		}
 		return false, f.store(p, vv.T, x.Val.Type())
 	case *ssa.Call:
 		v, err := f.call(x.Common(), x, x.Pos())
@@ -1031,16 +1039,127 @@ func (e *Engine) nextBV() int {
 	return e.nfresh
 }
 
-// ---- maps (constant tables and simple updates) --------------------------------------------
+// ---- maps ------------------------------------------------------------------------------------
+//
+// A map value is a reference; its domain and contents live in the state under
+//   MD:<maptype> : Ref -> (K -> Bool)      MV:<maptype> : Ref -> (K -> V)
+// len and range over maps are not modelled.
+
+func (f *frame) mapKeys(mt types.Type) (dk, vk string, ks, vs *Sort, err error) {
+	m := mt.Underlying().(*types.Map)
+	ks, err = f.e.Sorts.SortOf(m.Key())
+	if err != nil {
+		return
+	}
+	vs, err = f.e.Sorts.SortOf(m.Elem())
+	if err != nil {
+		return
+	}
+	dk = f.e.regKey("MD:"+typeKey(mt), f.e.Sorts.ArrOf(SRef, f.e.Sorts.ArrOf(ks, SBool)))
+	vk = f.e.regKey("MV:"+typeKey(mt), f.e.Sorts.ArrOf(SRef, f.e.Sorts.ArrOf(ks, vs)))
+	return
+}
 
 func (f *frame) makeMap(x *ssa.MakeMap) error {
-	return unsupported("map construction")
+	dk, _, ks, _, err := f.mapKeys(x.Type())
+	if err != nil {
+		return err
+	}
+	ref := Const(fmt.Sprintf("alloc!%s%s", f.prefix, x.Name()), SRef)
+	f.vals[x] = &Val{T: ref, Typ: x.Type()}
+	if f.c != nil {
+		f.e.Defs.noteFunc("preexisting", []*Sort{SRef}, SBool)
+		f.c.assume(Not(App("preexisting", SBool, ref)))
+		f.c.assume(Not(Eq(ref, f.e.nilRef())))
+	}
+	ds := f.e.Sorts.ArrOf(ks, SBool)
+	arr := f.get(f.st, dk, f.e.Sorts.ArrOf(SRef, ds))
+	f.st.m[dk] = Store(arr, ref, &Term{Op: "constarr", Sort: ds, Args: []*Term{TFalse}})
+	return nil
 }
 
 func (f *frame) mapUpdate(x *ssa.MapUpdate) error {
-	return unsupported("map update")
+	dk, vk, ks, vs, err := f.mapKeys(x.Map.Type())
+	if err != nil {
+		return err
+	}
+	m, err := f.term(x.Map)
+	if err != nil {
+		return err
+	}
+	k, err := f.term(x.Key)
+	if err != nil {
+		return err
+	}
+	v, err := f.term(x.Value)
+	if err != nil {
+		return err
+	}
+	f.oblige("nil", "map-write", Not(Eq(m, f.e.nilRef())), x.Pos())
+	darr := f.get(f.st, dk, f.e.Sorts.ArrOf(SRef, f.e.Sorts.ArrOf(ks, SBool)))
+	varr := f.get(f.st, vk, f.e.Sorts.ArrOf(SRef, f.e.Sorts.ArrOf(ks, vs)))
+	f.st.m[dk] = Store(darr, m, Store(Select(darr, m), k, TTrue))
+	f.st.m[vk] = Store(varr, m, Store(Select(varr, m), k, v))
+	return nil
+}
+
+// mapHas / mapGet read a map in the given state.
+func (f *frame) mapHas(st *State, mt types.Type, m, k *Term) (*Term, error) {
+	dk, _, ks, _, err := f.mapKeys(mt)
+	if err != nil {
+		return nil, err
+	}
+	darr := f.get(st, dk, f.e.Sorts.ArrOf(SRef, f.e.Sorts.ArrOf(ks, SBool)))
+	return And(Not(Eq(m, f.e.nilRef())), Select(Select(darr, m), k)), nil
 }
 
 func (f *frame) mapLookup(x *ssa.Lookup) error {
-	return unsupported("map lookup")
+	mt := x.X.Type()
+	_, vk, ks, vs, err := f.mapKeys(mt)
+	if err != nil {
+		return err
+	}
+	mv, err := f.val(x.X)
+	if err != nil {
+		return err
+	}
+	if mv.T == nil {
+		return unsupported("lookup in a non-term map")
+	}
+	k, err := f.term(x.Index)
+	if err != nil {
+		return err
+	}
+	st := f.st
+	if mv.Old && f.oldSt != nil {
+		st = f.oldSt
+	}
+	has, err := f.mapHas(st, mt, mv.T, k)
+	if err != nil {
+		return err
+	}
+	varr := f.get(st, vk, f.e.Sorts.ArrOf(SRef, f.e.Sorts.ArrOf(ks, vs)))
+	z, err := f.e.zero(mt.Underlying().(*types.Map).Elem())
+	if err != nil {
+		return err
+	}
+	val := Ite(has, Select(Select(varr, mv.T), k), z)
+	et := mt.Underlying().(*types.Map).Elem()
+	if x.CommaOk {
+		f.vals[x] = &Val{Tuple: []*Val{{T: f.define(f.name(x)+"!v", val), Typ: et}, {T: has, Typ: types.Typ[types.Bool]}}}
+		return nil
+	}
+	f.setVal(x, val)
+	return nil
+}
+
+func (f *frame) mapDelete(mt types.Type, m, k *Term) error {
+	dk, _, ks, _, err := f.mapKeys(mt)
+	if err != nil {
+		return err
+	}
+	darr := f.get(f.st, dk, f.e.Sorts.ArrOf(SRef, f.e.Sorts.ArrOf(ks, SBool)))
+	// delete on a nil map is a no-op
+	f.st.m[dk] = Store(darr, m, Store(Select(darr, m), k, TFalse))
+	return nil
 }
